@@ -246,7 +246,7 @@ def _save_token(store, token, request):
     ))
 
 
-def flask_server(store, scopes_supported=None):
+def flask_server(store, scopes_supported=None, lazy=False):
     """the Flask integration's AuthorizationServer (its request wrapper, response builder and configuration reading) over the same in-memory store"""
     from flask import Flask
     from authlib.integrations.flask_oauth2 import AuthorizationServer as FlaskAS
@@ -258,7 +258,12 @@ def flask_server(store, scopes_supported=None):
     def query_client(client_id):
         store.cb("query_client")
         return store.clients.get(client_id)
-    srv = FlaskAS(app, query_client=query_client, save_token=lambda token, request: _save_token(store, token, request))
+    if lazy:
+        # the application-factory pattern: the server object exists before the app, init_app() configures it
+        srv = FlaskAS()
+        srv.init_app(app, query_client=query_client, save_token=lambda token, request: _save_token(store, token, request))
+    else:
+        srv = FlaskAS(app, query_client=query_client, save_token=lambda token, request: _save_token(store, token, request))
     srv.store, srv.app, srv.framework = store, app, "flask"
     return srv
 
@@ -383,7 +388,7 @@ class OpenIDCodeExt(oidc_grants.OpenIDCode):
             (request.client_id, nonce) in self.store.used_nonces
 
     def get_jwt_config(self, grant):
-        return dict(self.store.jwt)
+        return self.store.jwt if getattr(self.store, "jwt_shared", False) else dict(self.store.jwt)
 
     def generate_user_info(self, user, scope):
         return UserInfo(sub=str(user.get_user_id()))
@@ -400,7 +405,7 @@ class OIDCImplicit(oidc_grants.OpenIDImplicitGrant):
             any(c.nonce == nonce and c.client_id == request.client_id for c in self.server.store.codes)
 
     def get_jwt_config(self):
-        return dict(self.server.store.jwt)
+        return self.server.store.jwt if getattr(self.server.store, "jwt_shared", False) else dict(self.server.store.jwt)
 
     def generate_user_info(self, user, scope):
         return UserInfo(sub=str(user.get_user_id()))
@@ -419,7 +424,7 @@ class OIDCHybrid(oidc_grants.OpenIDHybridGrant):
             any(c.nonce == nonce and c.client_id == request.client_id for c in self.server.store.codes)
 
     def get_jwt_config(self):
-        return dict(self.server.store.jwt)
+        return self.server.store.jwt if getattr(self.server.store, "jwt_shared", False) else dict(self.server.store.jwt)
 
     def generate_user_info(self, user, scope):
         return UserInfo(sub=str(user.get_user_id()))
@@ -561,7 +566,7 @@ def build(store=None, scopes_supported=None, oidc=True, pkce_required=False, req
     """Assemble a provider with every built-in grant registered."""
     install_clock()
     store = store or Store()
-    srv = MemServer(store, scopes_supported) if framework is None else {"flask": flask_server, "django": django_server}[framework](store, scopes_supported)
+    srv = MemServer(store, scopes_supported) if framework is None else {"flask": flask_server, "django": django_server, "flask-lazy": lambda st, sup: flask_server(st, sup, lazy=True)}[framework](store, scopes_supported)
     make_generators(store, srv)
     g = grants_enabled or ["code", "implicit", "oidc_implicit", "hybrid", "password", "client_credentials", "refresh", "device"]
     if "code" in g:
